@@ -100,7 +100,7 @@ def _mk_field(bt, fd):
         else:
             proto = _mk_scalar(bt, fd, for_list=True)
         if fd.get("rsz"):
-            l = vsc.randsz_list_t(proto)
+            l = vsc.randsz_list_t(proto)      # (a random-size list of objects is populated by the user, below)
         elif fd["r"]:
             l = vsc.rand_list_t(proto, sz=0 if ek == "obj" else (0 if "init" in fd else fd.get("sz", 0)))
         else:
@@ -437,7 +437,7 @@ def src_field(fd):
         el = ("%s()" % fd["c"]) if fd["ek"] == "obj" else ("vsc.enum_t(%s)" % fd["e"] if fd["ek"] == "enum"
                                                           else "vsc.%s(%d)" % ("int_t" if fd["s"] else "bit_t", fd["w"]))
         if fd.get("rsz"):
-            return "vsc.randsz_list_t(%s)" % el
+            return "vsc.randsz_list_t(%s)%s" % (el, ("  # + %d appended objects" % fd.get("sz", 0)) if fd["ek"] == "obj" else "")
         return "vsc.%slist_t(%s, sz=%d)%s" % ("rand_" if fd["r"] else "", el, fd.get("sz", 0),
                                                ("  # init=%s" % fd["init"]) if "init" in fd else "")
     if k == "rangelist":
